@@ -123,7 +123,7 @@ func runCase(p payload) (o outcome) {
 				pan = r
 			}
 		}()
-		ctx, cancel := context.WithTimeout(context.Background(), 90*time.Second)
+		ctx, cancel := context.WithTimeout(context.Background(), 60*time.Second)
 		defer cancel()
 		runErr = c.RunContext(ctx)
 	})
@@ -141,7 +141,7 @@ func runCase(p payload) (o outcome) {
 		return
 	}
 	if runErr != nil && errors.Is(runErr, context.DeadlineExceeded) {
-		o.fail = "RunContext ran into the 90 s context although the instruction budget guard was active"
+		o.fail = "RunContext ran into the 60 s context although the instruction budget guard was active"
 		return
 	}
 	cls := "run:ok"
@@ -231,7 +231,7 @@ func runCase(p payload) (o outcome) {
 					pan2 = r
 				}
 			}()
-			ctx, cancel := context.WithTimeout(context.Background(), 90*time.Second)
+			ctx, cancel := context.WithTimeout(context.Background(), 60*time.Second)
 			defer cancel()
 			err2 = obj.RunContext(ctx)
 		})
@@ -243,7 +243,7 @@ func runCase(p payload) (o outcome) {
 			break
 		}
 		if err2 != nil && errors.Is(err2, context.DeadlineExceeded) {
-			o.fail = "second RunContext hit the 90 s context"
+			o.fail = "second RunContext hit the 60 s context"
 			return
 		}
 	}
@@ -307,9 +307,10 @@ func check(t ev.TB, test string, p payload, classes []string) {
 	var o outcome
 	select {
 	case o = <-done:
-	case <-time.After(300 * time.Second):
-		tengo.VerifSetProbe(nil)
-		ev.Fail(t, test, p, "the call sequence (RunContext / Get / GetAll / Set / Clone / RunContext) did not return within 300 s\n--- source ---\n%s", clip(p.Source))
+	case <-time.After(180 * time.Second):
+		// a hang cannot be shrunk or continued past (the goroutine and the
+		// object's lock are lost): record the case and end this shard now
+		ev.FailNow(test, p, fmt.Sprintf("the call sequence (RunContext / Get / GetAll / Set / Clone / RunContext) did not return within 180 s (contexts of 60 s had expired)\n--- source ---\n%s", clip(p.Source)))
 		return
 	}
 	ev.InFlightDone()
